@@ -7,7 +7,7 @@ return_only_persistent=False, and against an unscheduled shadow execution in whi
 is ever released or rewritten in place."""
 import random
 
-from .. import corpus, gen, ops, proc
+from .. import corpus, gen, gen_dag, minimise, ops, proc
 from ..models import tablestore
 from ..seams import SIM
 
@@ -158,6 +158,11 @@ def task_batch(task):
                 kw["time_period_output_format"] = rng.choice(["vtl", "sdmx_reporting", "sdmx_gregorian", "natural"])
             o = gen.as_op(w, kwargs=kw, output_folder=rng.random() < 0.15)
             o["sid"] = "gen:%d" % src[1]
+        elif src[0] == "dag":
+            rng = random.Random(src[1])
+            w = gen_dag.generate(rng)
+            o = gen.as_op(w, output_folder=rng.random() < 0.1)
+            o["sid"] = "dag:%d" % src[1]
         else:
             o = corpus.as_op(src[1])
             o["sid"] = "corpus:" + src[1]["id"]
@@ -169,9 +174,27 @@ def task_batch(task):
         meta = o.get("meta")
         shape = repr(gen.graph_shape_key(meta)) if meta else o["sid"]
         out.append({"sid": o["sid"], "recs": recs, "stats": stats, "shape": shape,
+                    "edge_kinds": (meta or {}).get("edge_kinds") if stats["valid"] else None,
+                    "reader_profiles": (meta or {}).get("reader_profiles") if stats["valid"] else None,
                     "op": o if recs else None,
                     "sample": {"sid": o["sid"], "script": o["script"][:500]} if stats["nontrivial"] else None})
     return out
+
+
+def task_minimise(task):
+    """Delta-debug the operation (statements, knobs, rows) while the same model rule keeps failing."""
+    from ..parser_standin import shim
+
+    op, inv = task["op"], task["invariant"]
+
+    def still_fails(o):
+        shim.preparse([o["script"] + "\n", o["script"]])
+        recs, _st = proc.in_child(_batch_child, [o], 0, timeout=300)[0]
+        return any(r[0] == inv for r in recs)
+
+    if op.get("corpus_id"):
+        return {"op": op}
+    return {"op": minimise.shrink_op(op, still_fails, max_tests=60)}
 
 
 def run(ctx):
@@ -180,7 +203,8 @@ def run(ctx):
     n_gen = 1500 if quick else 60000
     cps = [e for e in corpus.discover() if e["bytes"] < (30000 if quick else 400000)]
     n_corpus = 250 if quick else len(cps)
-    items = [("gen", rng.randrange(1 << 30)) for _ in range(n_gen)]
+    items = [("gen", rng.randrange(1 << 30)) for _ in range(n_gen // 2)]
+    items += [("dag", rng.randrange(1 << 30)) for _ in range(n_gen - n_gen // 2)]
     items += [("corpus", e) for e in rng.sample(cps, min(n_corpus, len(cps)))]
     rng.shuffle(items)
     size = 12
@@ -188,9 +212,13 @@ def run(ctx):
     done = ctx.map("task_batch", tasks)
     violations, shapes, samples = [], set(), []
     n_eval = n_valid = n_shadow = n_skip = n_stmts = 0
+    edge_kinds, profiles = {}, set()
     for _t, res in done:
         for r in res:
             n_eval += 1
+            for k in r.get("edge_kinds") or []:
+                edge_kinds[k] = edge_kinds.get(k, 0) + 1
+            profiles.update(r.get("reader_profiles") or [])
             n_valid += r["stats"]["valid"]
             n_shadow += r["stats"]["shadow_compared"]
             n_skip += r["stats"]["shadow_skipped"]
@@ -205,6 +233,18 @@ def run(ctx):
                     continue
                 violations.append({"invariant": rule, "signature": {"invariant": rule}, "observed": detail,
                                    "scenario": {"sid": r["sid"], "op": r["op"]}, "digest": ""})
+    # one representative per rule, minimised
+    seen, reps = set(), []
+    for v in violations:
+        if v["invariant"] not in seen:
+            seen.add(v["invariant"])
+            reps.append(v)
+    if reps:
+        mins = ctx.map("task_minimise", [{"op": v["scenario"]["op"], "invariant": v["invariant"], "idx": i} for i, v in enumerate(reps[:4])],
+                       budget_s=150.0, force=True)
+        for (t, r) in mins:
+            reps[t["idx"]]["scenario"]["op"] = r["op"]
+    violations = reps
     coverage = {
         "evaluations": n_eval * 2,
         "distinct_nontrivial": len(shapes),
@@ -215,6 +255,9 @@ def run(ctx):
         "samples": samples or [{"note": "no nontrivial sample in this run"}],
         "scripts": n_eval, "valid_scripts": n_valid, "statements_executed": n_stmts * 2,
         "results_compared_with_unscheduled_execution": n_shadow,
+        "valid_scripts_by_reference_position_kind": edge_kinds,
+        "distinct_reader_profiles": len(profiles),
+        "reader_profile_rule": "per producer (input I, result R, scalar sc) the sequence of syntactic positions of its readers in creation order, e.g. 'sc:clause>direct-scalar'",
         "results_not_compared_time_typed": n_skip,
         "tasks_skipped_by_budget": getattr(ctx, "last_skipped", 0),
         "fault_kinds_fired": {},
